@@ -232,6 +232,7 @@ type obs struct {
 	Comp         map[int64]compObs
 	Votes        [][2]int64
 	Prev         int64
+	TSup         []coin // tokens-module registry: TokenInfo.Supply of the share tokens
 }
 type undelObs struct {
 	ID     uint64
@@ -290,6 +291,12 @@ func (w *world) observe(ctx sdk.Context) obs {
 			o.SSup = append(o.SSup, coin{i, s.Amount.Int64()})
 		}
 	}
+	for i, d := range denoms {
+		if ti := app.TokensKeeper.GetTokenInfo(ctx, poolPrefix+d); ti != nil && !ti.Supply.IsZero() {
+			o.TSup = append(o.TSup, coin{i, ti.Supply.Int64()})
+		}
+	}
+	sort.Slice(o.TSup, func(i, j int) bool { return denoms[o.TSup[i].D] < denoms[o.TSup[j].D] })
 	o.Mod = splitCoins(app.BankKeeper.GetAllBalances(ctx, authtypes.NewModuleAddress(mstypes.ModuleName)), "")
 	o.Fee = splitCoins(app.BankKeeper.GetAllBalances(ctx, authtypes.NewModuleAddress(authtypes.FeeCollectorName)), "")
 	o.Treas = splitCoins(app.DistrKeeper.GetFeesTreasury(ctx), "")
@@ -395,7 +402,7 @@ func (o obs) coq() string {
 	}
 	return "(mkObs " + strings.Join([]string{hx.Z(o.Time), hx.Z(o.Height), o.Slashed, coinsCoq(o.Stake), coinsCoq(o.Shares), coinsCoq(o.SSup),
 		coinsCoq(o.Mod), coinsCoq(o.Fee), coinsCoq(o.Treas), acctCoinsCoq(o.NBal), acctCoinsCoq(o.SBal), acctCoinsCoq(o.Rew),
-		hx.List(us), hx.ZU(o.Last), hx.List(ds), hx.List(cs), hx.List(vs), hx.Z(o.Prev)}, " ") + ")"
+		hx.List(us), hx.ZU(o.Last), hx.List(ds), hx.List(cs), hx.List(vs), hx.Z(o.Prev), coinsCoq(o.TSup)}, " ") + ")"
 }
 
 // ---------------------------------------------------------------- operations
@@ -471,7 +478,11 @@ func (o *op) coq() string {
 	case "allocate":
 		return fmt.Sprintf("(OAllocate %s %s)", hx.B(o.Possible), hx.Z(o.Infl))
 	case "begin":
-		return fmt.Sprintf("(OBegin %s %s %d %s %s)", hx.Z(o.Dt), zlist(o.Commit), o.Proposer, hx.B(o.Possible), hx.Z(o.Infl))
+		cm := make([]string, len(o.Commit))
+		for i, v := range o.Commit {
+			cm[i] = hx.Pair(hx.Z(v), hx.B(o.Signed[i]))
+		}
+		return fmt.Sprintf("(OBegin %s %s %d %s %s)", hx.Z(o.Dt), hx.List(cm), o.Proposer, hx.B(o.Possible), hx.Z(o.Infl))
 	case "end":
 		return "OEnd"
 	}
@@ -882,7 +893,22 @@ func scripted(cfgIdx int) []*history {
 	for i := 0; i < 5; i++ {
 		ops = append(ops, blk(0)...)
 	}
-	add("witness:signing_proposer_never_credited", 1, ops...)
+	add("witness:signing_proposer_five_blocks", 1, ops...)
+	// validator 0 proposes every block but never signs (SignedLastBlock=false): its signing record is empty
+	var ops2 []*op
+	ops2 = append(ops2, &op{Kind: "delegate", Who: 0, Amts: []coin{c(0, 1000)}})
+	for i := 0; i < 4; i++ {
+		ops2 = append(ops2, &op{Kind: "fees", Amts: []coin{c(0, 4000)}},
+			&op{Kind: "begin", Dt: 5, Commit: []int64{0, 1}, Signed: []bool{false, true}, Proposer: 0}, &op{Kind: "end"})
+	}
+	add("witness:non_signer_credited", 1, ops2...)
+	// a delegator redeems part of his stake and is dropped from the pool's delegator list: no rewards any more
+	ops3 := []*op{{Kind: "delegate", Who: 0, Amts: []coin{c(0, 1000)}}, {Kind: "delegate", Who: 1, Amts: []coin{c(0, 1000)}},
+		{Kind: "undelegate", Who: 0, Amts: []coin{c(0, 300)}}}
+	for i := 0; i < 3; i++ {
+		ops3 = append(ops3, blk(0)...)
+	}
+	add("witness:partial_undelegate_drops_delegator", 1, ops3...)
 	// stake caps summing to 1: the delegators are credited 4 out of a pool allocation of 3
 	add("witness:credited_exceeds_allocation", 1,
 		&op{Kind: "delegate", Who: 0, Amts: []coin{c(0, 1000), c(1, 1000)}},
@@ -921,7 +947,11 @@ func main() {
 			// message coins in the order the code iterates them (sdk.Coins are sorted by denom string)
 			sort.SliceStable(o.Amts, func(i, j int) bool { return denoms[o.Amts[i].D] < denoms[o.Amts[j].D] })
 			ctx, ok = w.exec(ctx, h, o)
-			aux := fmt.Sprintf("[%d; %d]", o.SignedCnt, o.PowerSeen)
+			recOK := 1
+			if h.usedSetVotes {
+				recOK = 0
+			}
+			aux := fmt.Sprintf("[%d; %d; %d]", o.SignedCnt, o.PowerSeen, recOK)
 			ob := "None"
 			if ok {
 				cur = w.observe(ctx)
